@@ -86,12 +86,21 @@ impl ExtractedDoc {
 }
 
 fn normalize_comment_string(s: String) -> Vec<String> {
+    // In a block comment a leading '*' on the continuation lines is
+    // decoration only if every non-blank continuation line carries it;
+    // otherwise it is text (e.g., a markdown bullet) and must be kept.
+    let decorated = s
+        .split('\n')
+        .skip(1)
+        .map(|s| s.trim())
+        .filter(|s| !s.is_empty())
+        .all(|s| s.starts_with('*'));
     s.split('\n')
         .enumerate()
         .map(|(idx, s)| {
             // Rust-style comments are intrinsically single-line. We don't want
             // to trim away formatting such as an initial '*'.
-            if idx == 0 {
+            if idx == 0 || !decorated {
                 s.trim_start().trim_end()
             } else {
                 let trimmed = s.trim_start().trim_end();
